@@ -99,13 +99,18 @@ func run(c *ev.Ctx) {
 		"(one model CA per alternative of the model's key field — the parser accepts 11 of the 26 —, the CA behind selfissued=no; plus per unit the unmutated base certificate and, for minted leaf seeds, the issuing minted CA), "+
 		"c.CheckSignature under each of the 18 algorithm values with its own and with an empty signature, VerifyHostname for %d host strings, the name collectors, SubjectAndKey, CertPool insertion + Verify (3 root/intermediate configurations over {c, Ed25519 CA, RSA CA, issuer CA, unit extras}), "+
 		"ValidateWithStupidDetail, three verifier.Graph scenarios with AddCert/AddRoot/WalkChains and Verifier.Verify, QC/Tor accessors). "+
+		"DETERMINISM: json.Marshal and CollectAllNames are called 2 times per stage on every certificate, and %d times per stage on every TIE-CARRYING certificate = one with two different name strings "+
+		"(subject CN, dNSNames, URIs, rfc822Names, printed iPAddresses) that coincide after trimming white space, trailing dots and a trailing '/', removing a wildcard/redaction label, lower-casing and decoding punycode labels (RFC 3492); all results of a stage must be byte-identical. "+
+		"BUNDLE units: the bundle is split with the harness's own DER length reader; when every element is accepted by ParseCertificate, each certificate of x509.ParseCertificates(bundle) must serialise twice identically, and its JSON and CollectAllNames must equal those of ParseCertificate on the same DER (no other operation is run on bundle items). "+
 		"%s"+
 		"distinct_nontrivial = certificates accepted by the permissive pool (states = candidate inputs evaluated, both pools)",
-		len(opTable)-2, len(names), len(hostnames), lightNote(units)))
+		len(opTable)-2, len(names), len(hostnames), tieReps, lightNote(units)))
 	c.Assume("oracle = no panic (recover; for library-started goroutines: death of the worker process, attributed through a progress file), json.Marshal twice byte-identical and json.Valid; a json.Marshal that returns an error both times is counted, not reported (the statement only demands completion)",
 		"a stalled worker (no progress for 60 s) is killed and the item re-run once in an isolated process with a 120 s limit; only a second stall is reported as a hang",
 		"generators are deterministic: the parent cross-checks an FNV checksum of every unit's inputs between the strict and the permissive pool",
-		"parser panics on candidate inputs are C01's subject and only counted here")
+		"parser panics on candidate inputs are C01's subject and only counted here",
+		fmt.Sprintf("map iteration order is randomised per range statement (Go specification: unspecified; gc runtime: random start bucket and offset per iteration): an ordering slip that leaves k >= 2 tied names in map order escapes the %d serialisations of one tie-carrying certificate with probability (1/k!)^%d <= 2^-15, and there are hundreds of such certificates per run", tieReps, tieReps-1),
+		"which tuples x509.ParseCertificates accepts is not judged here (C06 does); only bundles whose elements are each accepted by ParseCertificate in the pool's mode and that ParseCertificates returns completely are subjects")
 
 	if c.Replay != nil {
 		replay(c)
@@ -198,7 +203,30 @@ func report(c *ev.Ctx, units []certs.Unit, res *certs.Result) {
 			}
 			c.Incomplete(fmt.Sprintf("%s pool: budget reached, %d of %d units not (completely) enumerated: %s", mr.Mode, len(notDone), len(units), strings.Join(show, ", ")))
 		}
-		perMode[mr.Mode] = map[string]any{"candidates": t.Items, "accepted": t.Accepted, "operations": t.Cnt["ops"], "units_done": len(mr.Done),
+		// non-vacuity of the two dedicated input families
+		var nTie, nBundle int64
+		for k, v := range t.Hist {
+			switch {
+			case strings.HasPrefix(k, "names:tie-carrying"):
+				nTie += v
+			case strings.HasPrefix(k, "bundle:accept"):
+				nBundle += v
+			}
+		}
+		for i, u := range units {
+			if mr.Done[i] && u.Kind == "ties" && nTie == 0 {
+				c.Incomplete(mr.Mode + " pool: the name-ties unit ran, but no accepted certificate carried tying names")
+			}
+		}
+		if nBundle == 0 {
+			for i, u := range units {
+				if mr.Done[i] && u.Kind == "bundle" {
+					c.Incomplete(mr.Mode + " pool: bundle units ran, but x509.ParseCertificates accepted no bundle")
+					break
+				}
+			}
+		}
+		perMode[mr.Mode] = map[string]any{"tie_carrying_certificates": nTie, "bundles_compared": nBundle, "candidates": t.Items, "accepted": t.Accepted, "operations": t.Cnt["ops"], "units_done": len(mr.Done),
 			"worker_restarts": mr.Restarts, "reject_classes": len(t.Hist) - len(h) + 12}
 		for _, s := range t.Samples {
 			c.Sample(s)
@@ -254,7 +282,7 @@ func replay(c *ev.Ctx) {
 	}
 	var base []byte
 	seed := ""
-	if strings.HasPrefix(w.Unit, "model/") {
+	if strings.HasPrefix(w.Unit, "model/") || strings.HasPrefix(w.Unit, "bundle/") {
 		base = xgen.Encode(xgen.Default())
 	} else {
 		for _, s := range certs.CertSeeds(certs.RepoDir()) {
